@@ -12,6 +12,7 @@ import (
 	"strconv"
 	"strings"
 	"sync"
+	"time"
 	"unsafe"
 
 	gio "github.com/whatap/golib/io"
@@ -200,10 +201,45 @@ func callAccessors(obj interface{}) {
 		accCache[t] = idx
 	}
 	accMu.Unlock()
-	for _, i := range idx {
-		v.Method(i).Call(nil)
+	first := ""
+	for n, i := range idx {
+		o := vh.Guard(func() { v.Method(i).Call(nil) })
+		if o.OK() {
+			continue
+		}
+		if first == "" {
+			first = o.Panic
+		}
+		// a failed access must leave the object usable: the same accessor, and another one, are called
+		// again; they may fail again but must return (a lock leaked by the panic would block them)
+		name := strings.TrimPrefix(t.String(), "*") + "." + t.Method(i).Name
+		accMu.Lock()
+		seen := hangSeen[name]
+		accMu.Unlock()
+		if seen >= 3 {
+			continue
+		}
+		again := []int{i}
+		if len(idx) > 1 {
+			again = append(again, idx[(n+1)%len(idx)])
+		}
+		for _, j := range again {
+			if vh.GuardTimeout(1500*time.Millisecond, func() { v.Method(j).Call(nil) }).Timeout {
+				accMu.Lock()
+				hangSeen[name]++
+				accMu.Unlock()
+				panic(hangMarker + name)
+			}
+		}
+	}
+	if first != "" {
+		panic(first)
 	}
 }
+
+const hangMarker = "harness-hang:"
+
+var hangSeen = map[string]int{}
 
 var accMu sync.Mutex
 var accCache = map[reflect.Type][]int{}
@@ -230,6 +266,42 @@ func reencode(obj interface{}) []byte {
 		return out.ToByteArray()
 	}
 	return []byte(fmt.Sprintf("%v", obj))
+}
+
+// reencodeAs: the bytes the repository's writer produces for a decoded object, in the format the
+// encoding of that kind was produced in (nil: no writer for this kind)
+func reencodeAs(kind, typ string, obj interface{}) []byte {
+	out := gio.NewDataOutputX()
+	switch {
+	case kind == "value":
+		return encodeValue(obj.(value.Value))
+	case kind == "pack":
+		return pack.ToBytesPack(obj.(pack.Pack))
+	case strings.HasPrefix(kind, "steps:"):
+		return step.ToBytesStep(obj.([]step.Step))
+	case kind == "txrecord":
+		return obj.(*service.TxRecord).ToBytes()
+	case kind == "txrec":
+		ver := byte(4)
+		if i := strings.LastIndex(typ, ".v"); i >= 0 {
+			if n, err := strconv.Atoi(typ[i+2:]); err == nil {
+				ver = byte(n)
+			}
+		}
+		pack.WriteTransactionRec(out, obj.(*pack.TransactionRec), ver)
+		return out.ToByteArray()
+	case kind == "servicerec":
+		pack.NewStatServicePack().WriteRec(out, obj.(*pack.ServiceRec))
+		return out.ToByteArray()
+	case strings.HasPrefix(kind, "udp:"):
+		return udp.ToBytesPack(obj.(udp.UdpPack))
+	case strings.HasPrefix(kind, "stepx:"), strings.HasPrefix(kind, "sm:"), kind == "httpcrec", kind == "sqlrec":
+		if w, ok := obj.(interface{ Write(o *gio.DataOutputX) }); ok {
+			w.Write(out)
+			return out.ToByteArray()
+		}
+	}
+	return nil
 }
 
 var stepxCtors = map[string]func() rw{
@@ -437,6 +509,11 @@ func fillObj(r *vh.Rng, obj interface{}, depth int) {
 func genTxRecord(r *vh.Rng) *service.TxRecord {
 	t := service.NewTxRecord()
 	fillObj(r, t, 2)
+	if t.ErrorLevel == 0 && t.Error != 0 {
+		// the reader derives WARNING for "error without a level" (a default of the format, not wire
+		// data): keep the generated records in the reader's normal form so that they compare equal
+		t.ErrorLevel = service.WARNING
+	}
 	return t
 }
 
